@@ -142,6 +142,29 @@ func genPipeline(t *rapid.T) pipeline {
 		p.Faults = append(p.Faults, fault{Handler: rapid.SampledFrom(names).Draw(t, "faultHandler"), Kind: rapid.IntRange(0, 4).Draw(t, "faultKind"), K: rapid.IntRange(1, 6).Draw(t, "faultOnCall")})
 	}
 	p.Noise = rapid.SliceOfN(rapid.Uint8Range(0, 5), 0, 10).Draw(t, "noise")
+	if rapid.IntRange(0, 3).Draw(t, "topicNaming") > 0 {
+		// topic names are the application's: any distinct strings serve (dotted, with slashes, long, differing in one character)
+		ren := map[string]string{}
+		name := func(s string) string {
+			if v, ok := ren[s]; ok {
+				return v
+			}
+			ren[s] = s + rapid.SampledFrom([]string{".", "/", "-", "_", ""}).Draw(t, "topicSeparator") + rapid.StringMatching(`[a-zA-Z0-9._/-]{1,10}`).Draw(t, "topicNamePart")
+			return ren[s]
+		}
+		for i := range p.Sources {
+			p.Sources[i] = name(p.Sources[i])
+		}
+		p.Sink = name(p.Sink)
+		for i := range p.Msgs {
+			p.Msgs[i] = name(p.Msgs[i])
+		}
+		for si := range p.Stages {
+			for hi := range p.Stages[si] {
+				p.Stages[si][hi].In, p.Stages[si][hi].Out = name(p.Stages[si][hi].In), name(p.Stages[si][hi].Out)
+			}
+		}
+	}
 	return p
 }
 
